@@ -179,6 +179,27 @@ PROPS["C19"] = {
     "assumptions": ["iced-x86 decodes deterministically and terminates on every byte string (exercised on every case, not modelled)"],
 }
 
+def c20_stats(case, ci):
+    fam = "fuzz" if any(c.startswith("setxmms") for c in case) else ("partial-registers" if any(c.startswith("rw 64 RBX") for c in case) and not any(c.startswith("setregs") for c in case) else "program")
+    errs = sum(1 for a in ci if a.startswith("err"))
+    return [f"family:{fam}", f"case-with-errors:{1 if errs else 0}"]
+
+
+PROPS["C20"] = {
+    "lean_modules": ["AxVerif.Props.C20"],
+    "gen": "C20",
+    "two_run": True,
+    "stats": c20_stats,
+    "spec_determined": True,
+    "shards": {"quick": 8, "thorough": 32},
+    "exhaustive": {"quick": [], "thorough": []},
+    "proved_scope": "constructor randomness confined to GPR/XMM contents; reads/writes/effective addresses over written registers are independent of "
+                    "unwritten ones for every register file; writing all registers makes the files equal; the model has no other source of variation",
+    "sampled_only_scope": "process-level randomness of the implementation (thread RNG, hash-map seeds, allocator addresses) and error texts: two-run "
+                          "differential; instruction handlers reading only the operands they name: correspondence with partially written register files",
+    "assumptions": [],
+}
+
 NATIVE_SHARDS = {"quick": 8, "thorough": 32}
 _SCOPES = {
     "C01": ("read-after-write through every register view; MUL writes the exact double-width product, CF=OF iff the upper half is non-zero; "
